@@ -100,6 +100,12 @@ CHECKS["C20"] = dict(category="proof",
    note="Trusted: Lean kernel (+propext, Classical.choice, Quot.sound); the abstraction step from generated Go code to Goag.Sched (argued in DESIGN.md, supported by the regenerated site table, not mechanised); the translator's syntactic notion of a shared access (fails closed on new kinds of sites); Go's race detector; the driver's own handlers / transports share nothing.",
    technique="Lean 4 proof of schedule-independence for share-nothing systems + regenerated Lean obligation over a source-extracted shared-access table + race-detector differential search")
 
+CHECKS["C01"] = dict(category="translation_validation",
+   text="No formal Go type system is modelled, so 'every successful run type-checks' is decided per generated package, not proved for all specs: every package goag reports as written - fixtures under their own and a drawn configuration, random routing / security / parameter / JSON / response+client / map-fat specs, name-stress specs, specs goag has to refuse - under drawn combinations of client x api-handler x donotedit x cors x basepath x spec-handler-name is parsed, checked for gofmt stability and compiled; errors are accepted outcomes except for the repository's own fixtures; the verif hook reports which templates the corpus executed. What Lean carries: the identifier derivation (Goag.Naming, tied to generator.PublicFieldName / Title / PrivateFieldName on ~58000 names per run) with theorem publicFieldName_alnum (for every input the derived name consists of letters and digits only) and handler_client_field_disagree (the pre-fix handler/client field-name mismatch, as a machine-checked witness).",
+   design_ref="DESIGN.md §4.1",
+   note="Trusted: the Go toolchain (go/parser, go/format, go build) as the judge; Lean kernel (+propext, Classical.choice, Quot.sound) for the naming theorems; the naming model is modelled and tied by differential correspondence. Recorded finding classes: KF-C01-nameCollision (distinct spec names deriving one Go identifier; accepted only on name-stress and map-fat specs), KF-C01-noApiHandler (--api-handler=false output refers to handler.go).",
+   technique="per-program validation by the Go compiler over a flag x spec corpus + Lean 4 theorems on the identifier derivation tied by differential correspondence")
+
 REASONS_PENDING = "check not built yet in this round of work (see DESIGN.md §12 order); nothing is claimed for it"
 
 def main():
